@@ -12,7 +12,7 @@ CHECKS = {
    text="Seeded deterministic simulation of the whole system (driver, bigmachine workers over the simulated network, fake clock) running grammar-generated operator DAGs failure-free on both executors; scanned rows, WriterFunc/Scan observations and user counters are compared with a sequential reference evaluator. Exploration: thousands of distinct programs x configurations x schedules per run; a clean batch is evidence, not proof.",
    design="§6 C01", technique="deterministic simulation, seeded schedule/program search, reference-model oracle", note=WHOLE),
  "C02": dict(level="fault_enumeration", engine="world",
-   text="Whole-system simulation with machine kills injected at named RPC seam events: for each base program of the fault suite a sweep runs one world per (seam event of the fault-free run x {kill callee, kill each other machine, drop the Worker.Run reply}); seeded plans add 1-4 faults (kill, drop, stall past the keepalive timeout, cut-stream) with and without replacement machines. Oracle: success with reference rows, or an error; rows delivered before a scan error are genuine; no hang in 6h simulated; success required when capacity to recover remains. Enumeration is over the seam events of the sampled programs, not over all programs.",
+   text="Whole-system simulation with machine kills injected at named RPC seam events: for each base program of the fault suite a sweep runs one world per (seam event of the fault-free run x {kill callee, kill each other machine, drop the Worker.Run reply}); seeded plans add 1-4 faults (kill, drop, stall past the keepalive timeout, cut-stream) with and without replacement machines. Oracle: success with reference rows, or an error; rows delivered before a scan error are genuine; no hang in 4h simulated; success required when capacity to recover remains. Enumeration is over the seam events of the sampled programs, not over all programs.",
    design="§6 C02", technique="deterministic simulation with fault injection: single-fault sweep over RPC seam events + seeded multi-fault plans", note=WHOLE),
  "C06": dict(level="fault_enumeration", engine="world",
    text="User-function failures injected as faults (error / temporary error / panic / out-of-range partition; persistent or one-shot; first row, vector boundary, last row, end-of-stream) at every user-function site of three template programs, on four executor configurations, enumerated completely and then re-sampled under other seeds; each case is its own OS process so a driver crash is observed as such. Oracle: Run returns an error carrying the injected marker (reader/writer errors, all panics), temporary one-shot failures do not fail the run, the session stays usable, no hang.",
